@@ -106,6 +106,42 @@ def _check_that_array_base_types_are_fixed_size(type_ir, source_file_name, error
         )
 
 
+def _check_that_array_sizes_are_usable(type_ir, source_file_name, errors, ir):
+    """Checks that array lengths are not negative and elements not zero-sized."""
+    if (
+        type_ir.which_size == "element_count"
+        and ir_util.is_constant(type_ir.element_count)
+        and ir_util.constant_value(type_ir.element_count) < 0
+    ):
+        errors.append(
+            [
+                error.error(
+                    source_file_name,
+                    type_ir.element_count.source_location,
+                    "Array length must not be negative.",
+                )
+            ]
+        )
+        return
+    if type_ir.base_type.has_field("atomic_type") and not type_ir.base_type.has_field(
+        "size_in_bits"
+    ):
+        base_type = ir_util.find_object(type_ir.base_type.atomic_type.reference, ir)
+        if not ir_util.get_attribute(base_type.attribute, attributes.FIXED_SIZE):
+            # Reported by _check_that_array_base_types_are_fixed_size.
+            return
+    if ir_util.fixed_size_of_type_in_bits(type_ir.base_type, ir) == 0:
+        errors.append(
+            [
+                error.error(
+                    source_file_name,
+                    type_ir.base_type.source_location,
+                    "Array elements must not be zero-sized.",
+                )
+            ]
+        )
+
+
 def _check_that_array_base_types_in_structs_are_multiples_of_bytes(
     type_ir, type_definition, source_file_name, errors, ir
 ):
@@ -782,6 +818,12 @@ def check_constraints(ir):
         ir,
         [ir_data.ArrayType, ir_data.ArrayType],
         _check_that_inner_array_dimensions_are_constant,
+        parameters={"errors": errors},
+    )
+    traverse_ir.fast_traverse_ir_top_down(
+        ir,
+        [ir_data.ArrayType],
+        _check_that_array_sizes_are_usable,
         parameters={"errors": errors},
     )
     traverse_ir.fast_traverse_ir_top_down(
